@@ -57,7 +57,7 @@ func drawCtx(t *rapid.T, label string) []byte {
 
 func TestBlinding(t *testing.T) {
 	s := rt.S("blinding").SetRule("seed, two 32-byte blinds (incl. all-zero / all-ff), context (nil, empty, 0x00, leading zeros, 100..400 bytes), message 0..200 bytes; oracle: BlindPublicKeyWithContext == encode([SHA-512(blind||00||ctx)[:32] mod l] * decode(A)) on the math/big Edwards model; BlindKeySignWithContext deterministic, verifies under the blinded key with crypto/ed25519.Verify (and this package's), not under the original key; unblind inverts blind; two blindings commute; changing blind or context (one at a time) changes the key and invalidates the signature; context-free entry points equal the empty-context ones. non-trivial = every case; distinct by (seed, blind, ctx, message)")
-	rt.Check(t, 400, 50000, func(t *rapid.T) {
+	rt.Check(t, 400, 150000, func(t *rapid.T) {
 		seed := gen.Bytes32().Draw(t, "seed")
 		b1 := gen.Bytes32().Draw(t, "blind1")
 		b2 := gen.Bytes32().Draw(t, "blind2")
